@@ -151,7 +151,7 @@ def clause_dom_build(facts, rep, tier):
             nfns.setdefault(f.short, f)
         if f.cls_qn == 'sonic_json::SAXHandler' and ('SAlloc' in f.name or 'SimpleAllocator' in f.name):
             hfns.setdefault(f.short, f)
-    need = ('StartObject', 'EndObject', 'StartArray', 'EndArray', 'Key', 'String', 'Null', 'Bool', 'Uint', 'Int', 'Double', 'node', 'stringImpl')
+    need = ('StartObject', 'EndObject', 'StartArray', 'EndArray', 'Key', 'String', 'Null', 'Bool', 'Uint', 'Int', 'Double')      # the SAX interface; private helpers are interpreted under whatever name they have
     rep.require(all(n in hfns for n in need) and 'destroy' in nfns and 'kObject' in tags, 'C03: SAXHandler / DNode functions of the freeing-allocator instantiation not all found')
     for n_ in need:
         rep.fn(hfns[n_])
